@@ -19,7 +19,7 @@ import itertools
 from .. import astutil as A
 from ..alg import Closure, Interp, Obj, Poly, PyFunc, Undecided, fn, to_poly
 from ..cfg import CFG
-from ..dep import Deps, FlowDeps
+from ..dep import Deps, FlowDeps, depends_on_call
 from ..fwd import calls_to, check_forward
 from ..shims import OPT, run_shim, shim_table
 
@@ -185,7 +185,8 @@ def run(ctx):
         check_forward(ctx, r3, mini, c, shim, deps=FlowDeps(mini.node), require_kwargs=False)
     imin = mix.methods["_internal_minimize"]
     c_im = calls_to(mini.node, {"_internal_minimize"})
-    if c_im and any(k.arg is None and "minimizer_kwargs" in A.names_loaded(k.value) for k in c_im[0].keywords) and any(k.arg == "options" and "kwargs" in A.names_loaded(k.value) for k in c_im[0].keywords):
+    dmini = Deps(mini.node)
+    if c_im and any(k.arg is None and depends_on_call(dmini, k.value, "shim") for k in c_im[0].keywords) and any(k.arg == "options" and "kwargs" in A.names_loaded(k.value) for k in c_im[0].keywords):
         ctx.holds(r3, f"{MIX}::minimize -> _internal_minimize", "**minimizer_kwargs, options=kwargs")
     else:
         ctx.violated(r3, mini, "_internal_minimize(**minimizer_kwargs, options=kwargs, ...)", "what shim prepared (objective, x0, bounds, fixed values) or the solver options do not reach the minimiser", node=c_im[0] if c_im else mini.node)
@@ -247,7 +248,7 @@ def run(ctx):
         ctx.holds(r3, f"{mg.relpath}::minuit_optimizer._get_minimizer: Minuit(objective, init_pars, ...)")
     else:
         ctx.violated(r3, mg, "iminuit.Minuit(...)", "Minuit is not constructed from the wrapped objective and the start values", node=mcalls[0] if mcalls else mg.node)
-    st_fixed = any(isinstance(n, ast.Assign) and isinstance(n.targets[0], ast.Subscript) and A.dotted(n.targets[0].value) == "init_pars" and "val" in A.names_loaded(n.value) for n in ast.walk(mg.node))
+    st_fixed = any(isinstance(n, ast.Assign) and isinstance(n.targets[0], ast.Subscript) and A.dotted(n.targets[0].value) == "init_pars" and dm.depends_on(n.value, "fixed_vals") and dm.depends_on(n.targets[0].slice, "fixed_vals") for n in ast.walk(mg.node))
     if st_fixed:
         ctx.holds(r3, f"{mg.relpath}::minuit_optimizer._get_minimizer", "start value of a fixed parameter is its fixed value")
     else:
